@@ -27,7 +27,7 @@ AddSource == \E e \in Range0(LE(st)), lab \in NL :
              st' = LAddEdgeSource(st, e, lab).st /\ Em(Edit, "lax.add_edge_source", P11, [pre |-> st, e |-> e, label |-> lab])
 AddTarget == \E e \in Range0(LE(st)), lab \in NL :
              st' = LAddEdgeTarget(st, e, lab).st /\ Em(Edit, "lax.add_edge_target", P11, [pre |-> st, e |-> e, label |-> lab])
-Unify == \E v \in Nodes, w \in Nodes : st' = LUnify(st, v, w) /\ Em(Edit \/ Quo, "lax.unify", <<"C09", "C11">>, [pre |-> st, v |-> v, w |-> w])
+Unify == \E v \in Nodes, w \in Nodes : st' = LUnify(st, v, w) /\ Em(Edit, "lax.unify", <<"C09", "C11">>, [pre |-> st, v |-> v, w |-> w])
 \* identifiers: valid, duplicated, out of range
 DeleteNodes == \E ids \in SeqsUpTo(0 .. LN(st), 2) :
              /\ Em(Edit, "lax.delete_nodes", P11, [pre |-> st, ids |-> ids])
